@@ -495,3 +495,14 @@ package meta
 //@   requires leafOK(e)
 //@   modifies @searchState
 //@   ensures result == refFound(e, e.longest, haystack, 0)
+
+// ---- C02: the two-pass bidirectional search returns the leftmost-first reference span, relative to the ASSUMED
+// semantics of the forward and reverse lazy DFA (dfaLink) and the anchoring link ----
+//@ func (*Engine).findIndicesBidirectionalDFACore
+//@   props C02 C11
+//@   opt dead_returns=1
+//@   requires engineOK(e) && e.dfa != nil && e.reverseDFA != nil && state != nil && state.dfaCache != nil && state.revDFACache != nil && 0 <= at && at <= len(haystack)
+//@   modifies @searchState
+//@   ensures result2 == refFound(e, false, haystack, at)
+//@   ensures result2 ==> result0 == refStart(e, false, haystack, at) && result1 == refEnd(e, false, haystack, at)
+//@   ensures !result2 ==> result0 == -1 && result1 == -1
